@@ -270,17 +270,28 @@ func (r *relay) processFrame(f http2.Frame) error {
 				if err := s.Valid(); err != nil {
 					return fmt.Errorf("invalid setting %v: %w", s, err)
 				}
-				switch s.ID {
-				case http2.SettingHeaderTableSize:
-					r.peer.updateTableSize(s.Val)
-				case http2.SettingInitialWindowSize:
-					r.peer.updateInitialWindowSize(s.Val)
-				case http2.SettingMaxFrameSize:
-					r.peer.updateMaxFrameSize(s.Val)
-				}
 				settings = append(settings, s)
 				return nil
 			}); err == nil {
+				// The values of one frame are processed in order with no other frame
+				// processing between them: when an identifier appears more than once, only
+				// its last value is ever in force. Acting on an earlier initial window size
+				// would release queued DATA that neither the old nor the new value allows.
+				var initialWindowSize *uint32
+				for _, s := range settings {
+					switch s.ID {
+					case http2.SettingHeaderTableSize:
+						r.peer.updateTableSize(s.Val)
+					case http2.SettingInitialWindowSize:
+						v := s.Val
+						initialWindowSize = &v
+					case http2.SettingMaxFrameSize:
+						r.peer.updateMaxFrameSize(s.Val)
+					}
+				}
+				if initialWindowSize != nil {
+					r.peer.updateInitialWindowSize(*initialWindowSize)
+				}
 				r.destMu.Lock()
 				err = r.dest.WriteSettings(settings...)
 				r.destMu.Unlock()
